@@ -1,6 +1,462 @@
-//! C20 — not implemented yet.
-use crate::report::{Cfg, Report};
+//! C20 — covariance kernels are valid positive-definite kernels, scalar and matrix form (DESIGN §3 C20).
+//!
+//! Events: every `Kernel::forward` call for `f64`, `&f64`, `Vector`, `&Vector`, `Matrix`, `&Matrix`.
+//! Oracle: scalar form — symmetry and variance-at-zero bitwise, non-negativity, non-increase along
+//! 64-point distance ladders, bound by the variance; Gram matrices of the scalar form — symmetric,
+//! Jacobi eigenvalues >= −c·n·ε·λmax and a Cholesky certificate of K + c·n·ε·λmax·I; matrix form —
+//! shape rows(x) × rows(y) and entries equal to the scalar form within the a-priori cancellation
+//! bound of the ‖x‖² + ‖y‖² − 2xy expansion.
+use crate::gen::Rng;
+use crate::oracle::linref;
+use crate::report::{guard, jf, jnum, par_cases, Cfg, Hasher, Report};
+use compute::linalg::{Matrix, Vector};
+use compute::predict::{Kernel, RBFKernel, RQKernel};
+use serde_json::{json, Value};
 
-pub fn run(_cfg: &Cfg, rep: &mut Report) {
-    rep.inconclusive("monitor for C20 not implemented".to_string());
+const EPS: f64 = f64::EPSILON;
+const TINY: f64 = f64::MIN_POSITIVE;
+/// slack for "non-increasing" and "<= variance": powf is accurate to < 1 ulp but not proven monotone
+const MONO_SLACK: f64 = 4.0 * EPS;
+/// PSD tolerance constant c in c·n·ε·λmax
+const C_PSD: f64 = 8.0;
+
+enum Ker {
+    Rbf(RBFKernel, f64, f64),
+    Rq(RQKernel, f64, f64, f64),
+}
+
+const FORMS: [&str; 6] = ["Vector", "&Vector", "Matrix(n×1)", "&Matrix(n×1)", "Matrix(1×n)", "&Matrix(1×n)"];
+
+impl Ker {
+    fn name(&self) -> &'static str {
+        match self {
+            Ker::Rbf(..) => "rbf",
+            Ker::Rq(..) => "rq",
+        }
+    }
+    fn var(&self) -> f64 {
+        match self {
+            Ker::Rbf(_, v, _) => *v,
+            Ker::Rq(_, v, _, _) => *v,
+        }
+    }
+    fn len_scale(&self) -> f64 {
+        match self {
+            Ker::Rbf(_, _, l) => *l,
+            Ker::Rq(_, _, _, l) => *l,
+        }
+    }
+    fn params(&self) -> Value {
+        match self {
+            Ker::Rbf(_, v, l) => json!({"kernel": "RBF", "var": v, "length_scale": l}),
+            Ker::Rq(_, v, a, l) => json!({"kernel": "RQ", "var": v, "alpha": a, "length_scale": l}),
+        }
+    }
+    fn by_value(&self, x: f64, y: f64) -> f64 {
+        match self {
+            Ker::Rbf(k, ..) => Kernel::<f64, f64>::forward(k, x, y),
+            Ker::Rq(k, ..) => Kernel::<f64, f64>::forward(k, x, y),
+        }
+    }
+    fn by_ref(&self, x: f64, y: f64) -> f64 {
+        match self {
+            Ker::Rbf(k, ..) => Kernel::<&f64, f64>::forward(k, &x, &y),
+            Ker::Rq(k, ..) => Kernel::<&f64, f64>::forward(k, &x, &y),
+        }
+    }
+    fn matrix(&self, x: &[f64], y: &[f64], form: usize) -> Matrix {
+        macro_rules! call {
+            ($k:expr) => {
+                match form {
+                    0 => Kernel::<Vector, Matrix>::forward($k, Vector::new(x.to_vec()), Vector::new(y.to_vec())),
+                    1 => Kernel::<&Vector, Matrix>::forward($k, &Vector::new(x.to_vec()), &Vector::new(y.to_vec())),
+                    2 => Kernel::<Matrix, Matrix>::forward($k, Matrix::new(x.to_vec(), x.len() as i32, 1), Matrix::new(y.to_vec(), y.len() as i32, 1)),
+                    3 => Kernel::<&Matrix, Matrix>::forward($k, &Matrix::new(x.to_vec(), x.len() as i32, 1), &Matrix::new(y.to_vec(), y.len() as i32, 1)),
+                    4 => Kernel::<Matrix, Matrix>::forward($k, Matrix::new(x.to_vec(), 1, x.len() as i32), Matrix::new(y.to_vec(), 1, y.len() as i32)),
+                    _ => Kernel::<&Matrix, Matrix>::forward($k, &Matrix::new(x.to_vec(), 1, x.len() as i32), &Matrix::new(y.to_vec(), 1, y.len() as i32)),
+                }
+            };
+        }
+        match self {
+            Ker::Rbf(k, ..) => call!(k),
+            Ker::Rq(k, ..) => call!(k),
+        }
+    }
+    /// The mathematical kernel value relative to the variance (harness-side, used only to decide
+    /// whether a case is informative — never to judge the library).
+    fn ideal(&self, d2: f64) -> f64 {
+        match self {
+            Ker::Rbf(_, _, l) => (-d2 / (2.0 * l * l)).exp(),
+            Ker::Rq(_, _, a, l) => (-a * (d2 / (2.0 * a * l * l)).ln_1p()).exp(),
+        }
+    }
+    fn informative(&self, x: f64, y: f64) -> bool {
+        let v = self.ideal((x - y) * (x - y));
+        v > 1e-3 && v < 0.999
+    }
+    /// Is the exact kernel value above the underflow threshold at squared distance d2? (for "positive")
+    fn representable(&self, d2: f64) -> bool {
+        match self {
+            Ker::Rbf(_, v, l) => v.ln() - d2 / (2.0 * l * l) > -700.0,
+            Ker::Rq(_, v, a, l) => v.ln() - a * (d2 / (2.0 * a * l * l)).ln_1p() > -700.0,
+        }
+    }
+    /// A-priori bound on |matrix form − scalar form| at (x, y), given the two values.
+    fn cancellation_bound(&self, x: f64, y: f64, ks: f64, km: f64) -> f64 {
+        let l = self.len_scale();
+        // d2 from x² + y² − 2xy versus (x − y)²: worst case 5.5ε(x²+y²); 32ε leaves >= 10× over what is observed
+        let e = 32.0 * EPS * (x * x + y * y);
+        let delta = e / (2.0 * l * l);
+        let d2 = (x - y) * (x - y);
+        let own = match self {
+            Ker::Rbf(..) => 16.0 * EPS * (2.0 + (d2 / (2.0 * l * l)).min(750.0)),
+            Ker::Rq(_, _, a, _) => 16.0 * EPS * (2.0 + a),
+        };
+        (delta.exp_m1() + own) * ks.abs().max(km.abs()) + 4.0 * TINY
+    }
+}
+
+fn make_kernel(rng: &mut Rng, which: usize) -> Result<Ker, String> {
+    let var = rng.log_range(1e-2, 1e2);
+    let l = rng.log_range(1e-2, 1e2);
+    let a = rng.log_range(1e-2, 1e2);
+    if which == 0 {
+        guard(|| RBFKernel::new(var, l)).map(|k| Ker::Rbf(k, var, l))
+    } else {
+        guard(|| RQKernel::new(var, a, l)).map(|k| Ker::Rq(k, var, a, l))
+    }
+}
+
+/// n points in ±1e3 whose mutual distances are comparable with the length scale (so that the Gram
+/// matrix is neither the identity nor rank one), with duplicates now and then.
+fn point_set(rng: &mut Rng, n: usize, l: f64) -> Vec<f64> {
+    let c = rng.range(-900.0, 900.0);
+    let s = (l * 10f64.powf(rng.range(-1.5, 1.5))).min(100.0);
+    let mode = rng.usize(0, 5);
+    let mut p: Vec<f64> = (0..n)
+        .map(|i| match mode {
+            0 => c + s * i as f64 / n as f64, // regular grid
+            1 => rng.range(-1e3, 1e3),       // whole range
+            _ => c + s * rng.normal(),
+        })
+        .map(|v| v.clamp(-1e3, 1e3))
+        .collect();
+    if n >= 2 && rng.chance(0.15) {
+        let (i, j) = (rng.usize(0, n - 1), rng.usize(0, n - 1));
+        p[i] = p[j]; // repeated point: singular Gram matrix, still PSD
+    }
+    p
+}
+
+// ---------------------------------------------------------------------------------------------
+
+fn scalar_checks(rep: &mut Report, k: &Ker, rng: &mut Rng) {
+    let regime = k.name();
+    let (var, l) = (k.var(), k.len_scale());
+    // ---- pairs
+    for t in 0..32 {
+        let d = (l * 10f64.powf(rng.range(-3.0, 2.0))).min(1000.0) * if rng.bool() { 1.0 } else { -1.0 };
+        let x = rng.range(-1e3 + d.abs().min(999.0), 1e3 - d.abs().min(999.0));
+        let y = (x + d).clamp(-1e3, 1e3);
+        rep.case(regime);
+        let r = guard(|| (k.by_value(x, y), k.by_value(y, x), k.by_value(x, x), k.by_ref(x, y)));
+        let head = |obs: Value| json!({"kernel": k.params(), "x": x, "y": y, "observed": obs});
+        let (kxy, kyx, kxx, kref) = match r {
+            Err(msg) => {
+                rep.check("C20.scalar.no_panic", regime, false, || head(json!({"panic": msg})));
+                continue;
+            }
+            Ok(v) => v,
+        };
+        rep.seen(&format!("cover:{}:f64", regime), 3);
+        rep.seen(&format!("cover:{}:&f64", regime), 1);
+        rep.check("C20.symmetric", regime, kxy.to_bits() == kyx.to_bits(), || head(json!({"k(x,y)": jnum(kxy), "k(y,x)": jnum(kyx)})));
+        rep.check("C20.variance_at_zero", regime, kxx.to_bits() == var.to_bits(), || head(json!({"k(x,x)": jnum(kxx), "variance": var})));
+        rep.check("C20.scalar.kinds_agree", regime, kref.to_bits() == kxy.to_bits(), || head(json!({"by_value": jnum(kxy), "by_reference": jnum(kref)})));
+        let d2 = (x - y) * (x - y);
+        let pos = kxy >= 0.0 && (kxy > 0.0 || !k.representable(d2));
+        rep.check("C20.positive", regime, pos, || head(json!({"k(x,y)": jnum(kxy), "expected": "> 0 (>= 0 once the exact value is below 1e-304)"})));
+        rep.check("C20.bounded", regime, kxy <= var * (1.0 + MONO_SLACK), || head(json!({"k(x,y)": jnum(kxy), "variance": var, "expected": "k <= variance"})));
+        if t == 0 {
+            rep.distinct(Hasher::new().s(regime).f(var).f(l).f(x).f(y).finish(), k.informative(x, y));
+        }
+    }
+    // ---- 64-point distance ladder from distance 0 outwards
+    let x = rng.range(-500.0, 500.0);
+    let sign = if rng.bool() { 1.0 } else { -1.0 };
+    let dmax = (l * 30.0).min(450.0);
+    let dmin = (l * 1e-3).min(dmax * 1e-3);
+    let mut pts: Vec<(f64, f64)> = (0..64)
+        .map(|j| {
+            let d = if j == 0 { 0.0 } else { dmin * (dmax / dmin).powf((j - 1) as f64 / 62.0) };
+            let y = x + sign * d;
+            ((x - y).abs(), y) // the distance as the kernel itself computes it
+        })
+        .collect();
+    pts.sort_by(|a, b| a.0.partial_cmp(&b.0).unwrap());
+    rep.case(regime);
+    let vals = guard(|| pts.iter().map(|&(_, y)| k.by_value(x, y)).collect::<Vec<f64>>());
+    let head = |obs: Value| json!({"kernel": k.params(), "x": x, "ladder_first_last_distance": [pts[0].0, pts[63].0], "observed": obs});
+    match vals {
+        Err(msg) => {
+            rep.check("C20.scalar.no_panic", regime, false, || head(json!({"panic": msg})));
+        }
+        Ok(v) => {
+            let mut bad = None;
+            let mut worst = 0.0f64;
+            for j in 1..64 {
+                if pts[j].0 == pts[j - 1].0 {
+                    continue;
+                }
+                let ratio = v[j] / v[j - 1];
+                if ratio.is_finite() {
+                    worst = worst.max((ratio - 1.0) / MONO_SLACK);
+                }
+                if !(v[j] <= v[j - 1] * (1.0 + MONO_SLACK)) && bad.is_none() {
+                    bad = Some(j);
+                }
+            }
+            if k.name() == "rbf" {
+                rep.note_max("worst_ratio.rbf.monotone((k_j/k_{j-1}-1)/4ε)", worst);
+            }
+            rep.check("C20.monotone", regime, bad.is_none(), || {
+                let j = bad.unwrap();
+                head(json!({"distance_a": pts[j - 1].0, "k_a": jnum(v[j - 1]), "distance_b": pts[j].0, "k_b": jnum(v[j]), "expected": "k_b <= k_a since distance_b > distance_a"}))
+            });
+            rep.distinct(Hasher::new().s("ladder").s(regime).f(var).f(l).f(x).finish(), k.ideal(pts[63].0 * pts[63].0) < 0.5);
+        }
+    }
+}
+
+/// Eigenvalues of a symmetric matrix by cyclic Jacobi rotations, ascending. Same scheme as
+/// `oracle::linref::jacobi_eigenvalues`, but the rotated pair is set to zero explicitly, so the sweep
+/// loop really terminates after the usual 6..10 sweeps instead of running into the sweep limit.
+fn sym_eigenvalues(a: &[f64], n: usize) -> Vec<f64> {
+    let mut m = a.to_vec();
+    for i in 0..n {
+        for j in 0..i {
+            let s = 0.5 * (m[i * n + j] + m[j * n + i]);
+            m[i * n + j] = s;
+            m[j * n + i] = s;
+        }
+    }
+    for _sweep in 0..60 {
+        let mut off = 0.0;
+        for i in 0..n {
+            for j in 0..i {
+                off += m[i * n + j] * m[i * n + j];
+            }
+        }
+        let diag: f64 = (0..n).map(|i| m[i * n + i] * m[i * n + i]).sum();
+        if off <= 1e-40 * diag.max(TINY) {
+            break;
+        }
+        for p in 0..n {
+            for q in p + 1..n {
+                let apq = m[p * n + q];
+                if apq == 0.0 {
+                    continue;
+                }
+                let theta = (m[q * n + q] - m[p * n + p]) / (2.0 * apq);
+                let t = if theta == 0.0 { 1.0 } else { theta.signum() / (theta.abs() + (theta * theta + 1.0).sqrt()) };
+                let c = 1.0 / (t * t + 1.0).sqrt();
+                let s = t * c;
+                for k in 0..n {
+                    let akp = m[k * n + p];
+                    let akq = m[k * n + q];
+                    m[k * n + p] = c * akp - s * akq;
+                    m[k * n + q] = s * akp + c * akq;
+                }
+                for k in 0..n {
+                    let apk = m[p * n + k];
+                    let aqk = m[q * n + k];
+                    m[p * n + k] = c * apk - s * aqk;
+                    m[q * n + k] = s * apk + c * aqk;
+                }
+                m[p * n + q] = 0.0;
+                m[q * n + p] = 0.0;
+            }
+        }
+    }
+    let mut ev: Vec<f64> = (0..n).map(|i| m[i * n + i]).collect();
+    ev.sort_by(|a, b| a.partial_cmp(b).unwrap_or(std::cmp::Ordering::Equal));
+    ev
+}
+
+/// PSD certificate. Returns (ok, detail, min-eigenvalue ratio against the tolerance).
+fn psd(kmat: &[f64], n: usize) -> (bool, Value, f64) {
+    if let Some(i) = kmat.iter().position(|v| !v.is_finite()) {
+        return (false, json!({"reason": "non-finite entry", "row": i / n, "col": i % n, "value": jnum(kmat[i])}), f64::INFINITY);
+    }
+    let scale = kmat.iter().fold(0.0f64, |m, v| m.max(v.abs()));
+    if scale == 0.0 {
+        return (true, json!(null), 0.0);
+    }
+    let a: Vec<f64> = kmat.iter().map(|v| v / scale).collect();
+    let ev = match guard(|| sym_eigenvalues(&a, n)) {
+        Ok(e) => e,
+        Err(m) => return (false, json!({"reason": "eigenvalue oracle failed", "panic": m}), f64::INFINITY),
+    };
+    let (lmin, lmax) = (ev[0], ev[n - 1].abs().max(ev[0].abs()));
+    let tol = C_PSD * n as f64 * EPS * lmax;
+    let ratio = if lmin < 0.0 { -lmin / tol } else { 0.0 };
+    if !(lmin >= -tol) {
+        return (false, json!({"reason": "negative eigenvalue", "lambda_min/lambda_max": lmin / lmax, "tolerance": tol / lmax, "lambda_min_scaled": lmin, "lambda_max_scaled": lmax}), ratio);
+    }
+    let mut shifted = a.clone();
+    for i in 0..n {
+        shifted[i * n + i] += tol.max(TINY);
+    }
+    if linref::cholesky(&shifted, n).is_none() {
+        return (false, json!({"reason": "Cholesky of K + c·n·ε·λmax·I broke down", "lambda_min_scaled": lmin, "shift": tol}), ratio);
+    }
+    (true, json!(null), ratio)
+}
+
+fn gram_checks(rep: &mut Report, k: &Ker, rng: &mut Rng, n: usize) {
+    let regime = k.name();
+    let p = point_set(rng, n, k.len_scale());
+    rep.case(regime);
+    let g = guard(|| {
+        let mut g = vec![0.0; n * n];
+        for i in 0..n {
+            for j in 0..n {
+                g[i * n + j] = if (i + j) % 2 == 0 { k.by_value(p[i], p[j]) } else { k.by_ref(p[i], p[j]) };
+            }
+        }
+        g
+    });
+    let head = |obs: Value| json!({"kernel": k.params(), "points": jf(&p), "n": n, "observed": obs});
+    let g = match g {
+        Err(msg) => {
+            rep.check("C20.scalar.no_panic", regime, false, || head(json!({"panic": msg})));
+            return;
+        }
+        Ok(g) => g,
+    };
+    let var = k.var();
+    let nontrivial = n >= 2 && (0..n * n).any(|q| q / n != q % n && k.informative(p[q / n], p[q % n]));
+    rep.distinct(Hasher::new().s("gram").s(regime).fs(&p).f(var).f(k.len_scale()).finish(), nontrivial);
+    if nontrivial {
+        rep.seen(&format!("cover:{}:gram-nontrivial", regime), 1);
+    }
+    let asym = (0..n * n).find(|&q| g[q].to_bits() != g[(q % n) * n + q / n].to_bits());
+    rep.check("C20.gram.symmetric", regime, asym.is_none(), || head(json!({"i": asym.unwrap() / n, "j": asym.unwrap() % n})));
+    let (ok, why, ratio) = psd(&g, n);
+    if k.name() == "rbf" {
+        rep.note_max("worst_ratio.rbf.gram.min_eig(-λmin/(8nελmax))", ratio);
+    }
+    rep.check("C20.gram.psd", regime, ok, || head(why));
+}
+
+fn matrix_checks(rep: &mut Report, k: &Ker, rng: &mut Rng, nx: usize, ny: usize, form: usize) {
+    let regime = format!("{}:{}", k.name(), FORMS[form].split('(').next().unwrap());
+    let x = point_set(rng, nx, k.len_scale());
+    // second set: near the first one (so that entries are informative) or the same set (Gram matrix)
+    let same = nx == ny && rng.chance(0.5);
+    let y = if same {
+        x.clone()
+    } else {
+        let c = x[rng.usize(0, nx - 1)];
+        let s = k.len_scale().min(50.0);
+        (0..ny).map(|_| (c + s * 3.0 * rng.normal()).clamp(-1e3, 1e3)).collect()
+    };
+    rep.case(&regime);
+    rep.seen(&format!("cover:{}:{}", k.name(), FORMS[form]), 1);
+    let head = |obs: Value| json!({"kernel": k.params(), "argument_kind": FORMS[form], "x": jf(&x), "y": jf(&y), "observed": obs});
+    let m = match guard(|| k.matrix(&x, &y, form)) {
+        Err(msg) => {
+            rep.check("C20.matrix.no_panic", &regime, false, || head(json!({"panic": msg})));
+            return;
+        }
+        Ok(m) => m,
+    };
+    rep.check("C20.matrix.no_panic", &regime, true, || json!(null));
+    let shape_ok = m.nrows == nx && m.ncols == ny && m.data.len() == nx * ny;
+    if !rep.check("C20.matrix.shape", &regime, shape_ok, || head(json!({"shape": [m.nrows, m.ncols], "len": m.data.len(), "expected": [nx, ny]}))) {
+        return;
+    }
+    let mut worst = 0.0f64;
+    let mut at = (0, 0);
+    let informative = x.iter().any(|&a| y.iter().any(|&b| k.informative(a, b)));
+    for i in 0..nx {
+        for j in 0..ny {
+            let ks = k.by_value(x[i], y[j]);
+            let km = m.data[i * ny + j];
+            if ks.to_bits() == km.to_bits() {
+                continue;
+            }
+            let err = (km - ks).abs();
+            let b = k.cancellation_bound(x[i], y[j], ks, km);
+            let q = if err.is_nan() { f64::INFINITY } else { err / b };
+            if q > worst {
+                worst = q;
+                at = (i, j);
+            }
+            
+        }
+    }
+    rep.note_max(&format!("worst_ratio.{}.matrix_vs_scalar", k.name()), worst);
+    rep.distinct(Hasher::new().s("mat").s(&regime).fs(&x).fs(&y).finish(), informative && nx * ny > 1);
+    rep.check("C20.matrix.entries", &regime, worst <= 1.0, || {
+        let (i, j) = at;
+        head(json!({"i": i, "j": j, "x_i": x[i], "y_j": y[j], "matrix_form": jnum(m.data[i * ny + j]), "scalar_form": jnum(k.by_value(x[i], y[j])), "err/bound": worst}))
+    });
+    if same {
+        let asym = (0..nx * nx).find(|&q| m.data[q].to_bits() != m.data[(q % nx) * nx + q / nx].to_bits());
+        rep.check("C20.matrix.gram_symmetric", &regime, asym.is_none(), || head(json!({"i": asym.unwrap() / nx, "j": asym.unwrap() % nx, "a": m.data[asym.unwrap()], "b": m.data[(asym.unwrap() % nx) * nx + asym.unwrap() / nx]})));
+    }
+}
+
+pub fn run(cfg: &Cfg, rep: &mut Report) {
+    rep.rule = "per case one kernel (RBF / RQ alternating; variance, length scale, mixture parameter log-uniform in (1e-2,1e2)): 32 scalar pairs in ±1e3 at distances 1e-3..1e2 length scales, one 64-point distance ladder, one Gram matrix of the scalar form on 1..60 points spread over 0.03..30 length scales (grid / uniform / normal clouds, repeated points now and then), and one matrix-form call per argument kind (Vector, &Vector, Matrix n×1 and 1×n, owned and borrowed) on two point sets of independent sizes 1..60. non-trivial = an entry strictly between 0.1% and 99.9% of the variance; distinct by parameters and points".into();
+    rep.assume("'positive' is asserted as k >= 0, and k > 0 wherever the exact value exceeds exp(-700): beyond that a correct kernel underflows to zero");
+    rep.assume("monotone / bounded carry a 4ε relative slack (powf is accurate but not proven monotone)");
+    rep.assume("a Matrix argument is a point set given as a single column or a single row; general r×c matrices are not in the quantifier");
+    rep.assume("matrix-form entries may differ from the scalar form by the cancellation error of x²+y²−2xy: relative expm1(32ε(x²+y²)/(2ℓ²)) + 16ε(2+t) (t = exponent for RBF, mixture parameter for RQ)");
+    let n_cases = cfg.pick(600, 15_000, 10);
+    par_cases(cfg, rep, 1, n_cases, |i, rng, rep| {
+        let k = match make_kernel(rng, i % 2) {
+            Ok(k) => k,
+            Err(msg) => {
+                rep.check("C20.ctor.accepts_valid", if i % 2 == 0 { "rbf" } else { "rq" }, false, || json!({"panic": msg}));
+                return;
+            }
+        };
+        scalar_checks(rep, &k, rng);
+        let n = match (i / 2) % 6 {
+            0 => 1,
+            1 => 2,
+            2 => rng.usize(3, 8),
+            3 => 60,
+            _ => rng.usize(9, 60),
+        };
+        let n = if cfg.miri() { n.min(6) } else { n };
+        gram_checks(rep, &k, rng, n);
+        let cap = if cfg.miri() { 5 } else { 60 };
+        for form in 0..6 {
+            let (nx, ny) = match (i / 2 + form) % 5 {
+                0 => (1, rng.usize(1, cap)),
+                1 => (rng.usize(1, cap), 1),
+                2 => {
+                    let m = rng.usize(2, cap);
+                    (m, m)
+                }
+                _ => (rng.usize(1, cap), rng.usize(1, cap)),
+            };
+            matrix_checks(rep, &k, rng, nx, ny, form);
+        }
+        if i < 4 {
+            rep.sample(|| json!({"kernel": k.params(), "k(0,0)": k.by_value(0.0, 0.0), "k(0,1)": k.by_value(0.0, 1.0), "k(0,3)": k.by_value(0.0, 3.0)}));
+        }
+    });
+    for name in ["rbf", "rq"] {
+        rep.require(name, 1);
+        rep.require(&format!("cover:{}:f64", name), 1);
+        rep.require(&format!("cover:{}:&f64", name), 1);
+        rep.require(&format!("cover:{}:gram-nontrivial", name), 1);
+        for f in FORMS {
+            rep.require(&format!("cover:{}:{}", name, f), 1);
+        }
+    }
 }
